@@ -181,6 +181,9 @@ ADDENDA = {
     "C06": dict(text=" The 'remove' profile (streams that lose the race with the removal of their target, targets that come back) checks that nothing registered for a refused or ended stream is offered anything later."),
     "C07": dict(text=" Also: subscriptions to a target the cache does not know (refused as unauthenticated first, if the caller is), and an 'idle' profile with an ACL in which the last thing a sender handled "
                      "before a silence longer than the send timeout may be a denied target's notification (the stream must survive)."),
+    "C08": dict(text=" SendTimer.tla specifies the send-timeout discipline of a sender (a timer runs only while a Send is in progress; a Send that never returns ends the RPC, the sync response included) "
+                     "with three mutants that must be refuted (timer left running after the sync, armed before the ACL filter, sync sent without the timer); an 'idle' profile (silences longer than the send "
+                     "timeout) checks on the real server that a merely idle subscriber is never terminated."),
     "C09": dict(text=" Walk/WalkSorted hand their visitor path slices that the driver keeps until the walk has returned (as client.Leaves and the CLI do); paths up to length 5."),
     "C10": dict(text=" The lock protocol itself is specified in CTreeLocks.tla (one RWMutex per node with Go's writer preference, hand-over-hand descent keeping the ancestors' read locks, reader->writer exchange "
                      "with re-check, deletes under the root write lock that lock every node they inspect, leaf-handle operations) and model-checked for every interleaving of 2-4 operations: the reachable content "
